@@ -487,6 +487,20 @@ class SimBackend(object):
         st = _REAL_ACTUAL_SOLVE(solver, lp, **kw)
         rec['status'] = pulp.LpStatus[lp.status]
         rec['real'] = True
+        if lp.status == pulp.LpStatusOptimal and \
+                not rec.get('solver_options') and \
+                not rec.get('duplicate_names'):
+            # The bundled CBC 2.10.3 occasionally reports Optimal with a
+            # point that violates a row ("relaxed row infeasibilities" in its
+            # preprocessing; observed 2 times in 277 536 cross-checked
+            # solves).  That is the back end breaking its contract, not the
+            # repository: the run is recorded and not judged.
+            bad = point_violations(lp)
+            if bad:
+                rec['backend_fault'] = 'real-cbc-infeasible-answer'
+                rec['backend_fault_detail'] = bad
+                self.fired['real-cbc-infeasible-answer'] = self.fired.get(
+                    'real-cbc-infeasible-answer', 0) + 1
         ids, pairs, n1, trusted = self.pairs_provider(lp)
         if lp.status == pulp.LpStatusOptimal and trusted:
             idset = dict((i, k) for k, i in enumerate(ids))
@@ -512,6 +526,7 @@ class SimBackend(object):
             _REAL_ACTUAL_SOLVE(solver, lp, **kw)
             real_status = lp.status
             zreal = pulp.value(lp.objective) if real_status == 1 else None
+            real_bad = point_violations(lp) if real_status == 1 else []
             ids, _, _, trusted = self.pairs_provider(lp)
             idset = dict((i, k) for k, i in enumerate(ids))
             proj = {}
@@ -524,6 +539,14 @@ class SimBackend(object):
             lp.assignStatus(*saved_status)
         st['solves'] = st.get('solves', 0) + 1
         bad = None
+        if real_bad:
+            # CBC's own answer violates the program: a fault of the real back
+            # end (see _real), counted, not a disagreement to explain
+            st['real_cbc_infeasible_answers'] = st.get(
+                'real_cbc_infeasible_answers', 0) + 1
+            self.fired['real-cbc-infeasible-answer(xcheck)'] = \
+                self.fired.get('real-cbc-infeasible-answer(xcheck)', 0) + 1
+            return
         if real_status != pulp.LpStatusOptimal:
             bad = 'status real=%s stub=Optimal' % pulp.LpStatus[real_status]
         elif abs((zreal or 0) - (zstub or 0)) > 1e-6:
@@ -542,6 +565,33 @@ class SimBackend(object):
 
 def _plain(x):
     return list(x) if isinstance(x, tuple) else x
+
+
+def point_violations(lp, limit=3):
+    """Constraints, bounds and integrality that the current variable values
+    of lp violate (a correct back end reporting Optimal leaves none)."""
+    bad = []
+    for v in lp.variables():
+        x = v.varValue
+        if x is None:
+            continue
+        if v.lowBound is not None and x < v.lowBound - 1e-6:
+            bad.append('bound:%s=%r<%r' % (v.name, x, v.lowBound))
+        if v.upBound is not None and x > v.upBound + 1e-6:
+            bad.append('bound:%s=%r>%r' % (v.name, x, v.upBound))
+        if v.cat == 'Integer' and abs(x - round(x)) > 1e-6:
+            bad.append('fractional:%s=%r' % (v.name, x))
+    for name, c in lp.constraints.items():
+        val = c.constant
+        for v, a in c.items():
+            val += a * (v.varValue or 0.0)
+        if (c.sense == 0 and abs(val) > 1e-6) or \
+                (c.sense > 0 and val < -1e-6) or \
+                (c.sense < 0 and val > 1e-6):
+            bad.append('row:%s' % name)
+        if len(bad) >= limit:
+            break
+    return bad
 
 
 _ACTIVE = {'backend': None}
